@@ -317,6 +317,14 @@ class Exec(CallsMixin, Interp):
                 new = K.seq_set(base, z3.If(i >= 0, i, n + i), v)
             elif isinstance(k, K.Rec):
                 s = simp(idx.t)
+                if not z3.is_string_value(s) and isinstance(idx.kind, K._Str) and not self.spec:
+                    for f in k.fields:          # symbolic key: case split over the declared keys
+                        if self.branch(idx.t == z3.StringVal(f)):
+                            idx = K.vstr(f)
+                            s = simp(idx.t)
+                            break
+                    else:
+                        raise Unsupported('record store with a key outside the declared ones')
                 if not z3.is_string_value(s) or s.as_string() not in k.fields:
                     raise Unsupported('record store with unknown key')
                 off, fk = k.slot(s.as_string())
@@ -557,7 +565,11 @@ class Exec(CallsMixin, Interp):
                     if it.map.tag == 'emptydict':
                         return 'empty', None
                     raise Unsupported('view of %r' % (it.map,))
-                return 'map:' + it.what, it.map
+                m = it.map
+                if isinstance(m.kind, K.Opt):
+                    self.implicit_raise(z3.Not(K.opt_isnone(m)), 'AttributeError', 'dict view of None', None)
+                    m = K.opt_inner(m)
+                return 'map:' + it.what, m
             if it.tag == 'pytuple':
                 return 'pytuple', it.items
             if it.tag == 'range':
